@@ -107,6 +107,10 @@ pub struct Shape {
     /// log_final_poly_len > 0, the native prover's precondition)
     pub heights: Vec<u8>,
     pub batches: Vec<Vec<Mat>>,
+    /// MMCS cap height (0..=2, clamped to log_blowup so that every committed tree is at least
+    /// as tall as its cap)
+    #[serde(default)]
+    pub cap_height: u8,
 }
 
 #[derive(Clone, Debug, Serialize, Deserialize, Hash, PartialEq, Eq)]
@@ -161,6 +165,7 @@ struct RShape {
     commit_pow_bits: usize,
     query_pow_bits: usize,
     n_points: usize,
+    cap_height: usize,
     batches: Vec<Vec<RMat>>,
     /// number of batches whose first matrix was lifted to the global max height because of
     /// the known finding `C07/short-batch-index-bits`
@@ -260,6 +265,7 @@ fn resolve(s: &Shape) -> RShape {
         commit_pow_bits: [0usize, 1, 4, 8][(s.commit_pow_bits % 4) as usize],
         query_pow_bits: [0usize, 1, 4, 8][(s.query_pow_bits % 4) as usize],
         n_points: used.len(),
+        cap_height: ((s.cap_height % 3) as usize).min(1 + ((s.log_blowup.max(1) - 1) % 3) as usize),
         batches,
         lifted,
     }
@@ -277,7 +283,7 @@ fn perm() -> &'static Perm {
 fn make_pcs(r: &RShape) -> MyPcs {
     let hash = MyHash::new(perm().clone());
     let compress = MyCompress::new(perm().clone());
-    let val_mmcs = MyMmcs::new(hash, compress, 0);
+    let val_mmcs = MyMmcs::new(hash, compress, r.cap_height);
     let challenge_mmcs = ChallengeMmcs::new(val_mmcs.clone());
     let fri = FriParameters {
         log_blowup: r.log_blowup,
@@ -1011,7 +1017,7 @@ fn timed<R>(acc: &AtomicU64, f: impl FnOnce() -> R) -> R {
 }
 
 pub const RULE: &str = "FRI parameter set (log_blowup 1-3, queries 1-4, max_log_arity 1-4, log_final_poly_len 0-3, \
-commit/query PoW bits in {0,1,4,8}) x 1-3 commitment batches of 1-4 matrices (log-heights 1-8, rarely 0, widths 1-6, 1-2 opening \
+commit/query PoW bits in {0,1,4,8}, MMCS cap height 0-2) x 1-3 commitment batches of 1-4 matrices (log-heights 1-8, rarely 0, widths 1-6, 1-2 opening \
 points per matrix out of 1-3 shared points) x honest native opening x single-leaf alterations (each applied alone) of \
 the bundle {commits, points, claims, proof}; oracle: native Pcs::verify verdict == circuit verdict (honest must be \
 accepted by both); non-trivial = (>= 2 distinct heights or >= 2 fold phases) and >= 1 altered leaf evaluated; distinct \
@@ -1356,6 +1362,7 @@ fn shape_strategy() -> impl Strategy<Value = Shape> {
         (1u8..=3, 1u8..=4, 1u8..=4, 0u8..=3, 0u8..4, 0u8..4, 1u8..=3),
         prop::collection::vec(prop_oneof![8 => 1u8..=8, 1 => Just(0u8)], 1..=3),
         prop::collection::vec(prop::collection::vec(mat_strategy(), 1..=4), 1..=3),
+        prop_oneof![2 => Just(0u8), 1 => Just(1u8), 1 => Just(2u8)],
     )
         .prop_map(
             |(
@@ -1370,6 +1377,7 @@ fn shape_strategy() -> impl Strategy<Value = Shape> {
                 ),
                 heights,
                 batches,
+                cap_height,
             )| Shape {
                 log_blowup,
                 num_queries,
@@ -1380,6 +1388,7 @@ fn shape_strategy() -> impl Strategy<Value = Shape> {
                 n_points,
                 heights,
                 batches,
+                cap_height,
             },
         )
 }
@@ -1415,7 +1424,7 @@ pub fn strategy(max_muts: usize) -> impl Strategy<Value = Case> {
 
 pub fn run(ctx: &Ctx) {
     EXCLUDE_SHORT_BATCH.store(ctx.is_known(KNOWN_SHORT_BATCH), Ordering::Relaxed);
-    ctx.assume("field configuration: BabyBear, quartic challenge field, Poseidon2 width 16 (the configuration of recursion/tests/fri.rs); MMCS cap height 0");
+    ctx.assume("field configuration: BabyBear, quartic challenge field, Poseidon2 width 16 (the configuration of recursion/tests/fri.rs); MMCS cap height 0-2");
     ctx.assume("transcript prefix before Pcs::verify / the circuit: all commitments observed; opening points are free inputs (not sampled)");
     ctx.assume("matrix log-heights are clamped from below by log_final_poly_len+1 when log_final_poly_len>0 (p3-fri prover precondition: the smallest LDE must be strictly taller than the final domain); at least one matrix has log-height >= 1 so that there is >= 1 fold phase (the circuit documents \"FRI must have at least one fold phase\")");
     ctx.shrink_iters.store(150, Ordering::Relaxed);
